@@ -98,6 +98,32 @@ CHECKS = {
             "data positions gets its syndrome from the real bech32_polymod and all 2,390,287 syndromes must be pairwise distinct "
             "(=> no undetected error of weight<=4); all cross-constant weight-4 patterns are listed and replayed on real addresses.",
             "DESIGN.md §4 C11", "quick tier: weight-2 syndromes are XORs of directly measured weight-1 syndromes (affinity re-checked on two bases and at every emitted length); thorough tier: 2.39M direct polymod calls"),
+    "C06": ("exploration", "E1 product",
+            "bounded exhaustive product (deviation ball d<=2 / full product) of sources x networks x accounts x intervals, plus BFS over call histories on one wallet, vs a complete reference paper wallet",
+            "Every vector of the configuration product is generated by the real PaperWallet and compared leaf by leaf with a complete "
+            "expected dictionary built from the reference BIP32/39/85/SLIP-132/address models; rows are additionally checked for "
+            "internal consistency without the path; JSON round trip and Wasabi export included; generate/wasabi histories on one object.",
+            "DESIGN.md §4 C06", ""),
+    "C16": ("exploration", "E1 product",
+            "bounded exhaustive enumeration of networks x seeds x accounts x all output-producing APIs x all 12 re-import versions, plus BFS over two-wallet histories, judged by an independent network classifier",
+            "Every string leaf of everything a wallet emits (addresses of all kinds, generate(), node keys in SLIP-132 and default "
+            "flavour, Wasabi key) is classified by Base58Check version byte / Bech32 prefix / SLIP-132 version / coin type and must "
+            "carry the wallet's network; wallets re-imported from each of the 12 prefixes at 3 export nodes; alternating requests "
+            "between a mainnet and a testnet wallet in one process.",
+            "DESIGN.md §4 C16", "BIP85 block excluded (BIP85 defines its children as mainnet-encoded; C12 owns them)"),
+    "C14": ("model_checking", "E2 bfs",
+            "explicit-state BFS over non-hardened sub-paths below every export node x 6 public versions on real watch-only and full wallets, refusal/secrecy grid with object-graph scan, request histories on one watch-only wallet",
+            "Breadth-first search of the sub-path tree below six export nodes (incl. depth 200 / child number 2^32-1) under all six "
+            "public prefixes: in each state the watch-only node must equal the full wallet's node and the reference (key, chain "
+            "code, metadata, 5 address kinds, SLIP-132 string); every private or hardened request must raise; no private scalar, WIF "
+            "or xprv of the full wallet may be reachable from the watch-only object graph.",
+            "DESIGN.md §4 C14", ""),
+    "C15": ("exploration", "E1 product",
+            "bounded exhaustive product / deviation ball of wallet sources x networks x accounts x intervals through paranoia_mode and the CLI, every leaf decoded and compared with every secret leaf",
+            "Each filtered structure (API) and each parsed CLI output (stdout and -f) is walked to every depth: no leaf may decode as "
+            "a WIF or private extended key, equal or contain a secret leaf of the unfiltered output, and every path/address/SEC/pub "
+            "must be present, identical and in order; the raw CLI text is scanned too.",
+            "DESIGN.md §4 C15", ""),
 }
 
 NOT_YET = "check not built yet in this session (work in progress; see DESIGN.md §9 build order)"
